@@ -944,8 +944,8 @@ class Fxp():
                 self.vdtype = vdtype
         else:
             self.vdtype = original_vdtype
-            if np.issubdtype(self.vdtype, np.integer) and self.n_frac > 0:
-                self.vdtype = float  # change to float type if Fxp has fractional part
+        if self.vdtype is not None and self.vdtype != complex and np.issubdtype(self.vdtype, np.integer) and self.n_frac > 0:
+            self.vdtype = float  # change to float type if Fxp has fractional part (also after a raw store, e.g. the one of resize)
 
         # check inaccuracy
         if not np.equal(val, new_val/conv_factor).all() :
